@@ -532,6 +532,10 @@ def _enforce_bounds_vector(u, du, alpha, lower_bounds, upper_bounds):
         # d_alpha will not be greater than alpha because the assumption is that
         # the original point was valid - i.e., no bounds were violated.
         # Therefore 0 <= d_alpha <= alpha.
+        # (For an entry sitting on its bound with a round-off sized step, the ratio above is a
+        # quotient of two round-off quantities and can exceed alpha, which would reverse the
+        # whole step, so enforce the upper limit explicitly.)
+        d_alpha = min(d_alpha, alpha)
 
         # We first update u to reflect the required change to du.
         u.add_scal_vec(-d_alpha, du)
